@@ -236,10 +236,20 @@ def impl_accumulate(case, hist_key, X):
     p = post()
     s = p.Standardize(norm_var=case["nv"])
     arrays = []
-    for c in case[hist_key]:
+    for i, c in enumerate(case[hist_key]):
         a = build_array(X, c, case["dtype"])
         arrays.append((a, case["dtype"], c["axis"]))
         s.accumulate(a, axis=c["axis"])
+        # interleave apply() calls with the accumulation (apply must not change, or cache, anything the
+        # statistics depend on): "mean and variance are those of ALL vectors accumulated so far"
+        if (i + case["F"]) % 2 == 0:
+            try:
+                with warnings.catch_warnings():
+                    warnings.simplefilter("ignore")
+                    with np.errstate(all="ignore"):
+                        s.apply(np.ones(case["F"], dtype=np.float64))
+            except Exception:
+                pass
     return s, arrays
 
 
